@@ -778,6 +778,91 @@ fn eval_c13(x: &[i128]) -> Result<(), Mismatch> {
     Ok(())
 }
 
+
+/// C14 for the values built inside the local-time search (BOUNDED: the zones and local times generated here):
+/// every entry returned by DateTime::find satisfies secs(fields) = unix_time + ut_offset, Normal entries carry the
+/// searched fields, both halves of a Skipped entry denote the same instant
+fn gen_c14_search(rng: &mut Rng, n: usize, emit: &mut dyn FnMut(Vec<i128>) -> bool) {
+    for round in 0..(n / 16 + 30) {
+        let nt = rng.range(1, 4) as usize;
+        let ny = rng.range(1, 3) as usize;
+        let offs: Vec<i128> = (0..ny).map(|i| (i as i128) * 3600 + rng.pick(&[0i128, 1800, -7200])).collect();
+        let rt = rng.range(0, 2_000_000_000);
+        let mut t = rng.pick(&[1_000_000_002i128, 100_000, 946_684_800, rt]);
+        let mut trans = Vec::new();
+        for _ in 0..nt {
+            trans.push((t, rng.range(0, ny as i128 - 1)));
+            t += rng.pick(&[1800i128, 3600, 86400, 15_000_000, 1_000_000_000]);
+        }
+        let leaps = match round % 3 {
+            0 => vec![],
+            1 => vec![(78796800, 1), (94694401, 2)],
+            _ => random_leaps(rng, true),
+        };
+        let fixed_rule = if round % 2 == 0 { Some(offs[trans.last().unwrap().1 as usize]) } else { None };
+        let z = ZoneSpec { leaps, trans, offs, fixed_rule };
+        if oracle_zone_wf(&z).is_err() {
+            continue;
+        }
+        let mut locals = vec![rng.range(0, 2_100_000_000)];
+        for tr in &z.trans {
+            let u = o::g(&z.leaps, tr.0);
+            for off in &z.offs {
+                locals.extend([u + off - 1, u + off, u + off + 1, u + off + 1799]);
+            }
+        }
+        for l in locals {
+            let mut v = vec![l];
+            v.extend(encode_zone(&z));
+            if !emit(v) {
+                return;
+            }
+        }
+    }
+}
+
+fn eval_c14_search(x: &[i128]) -> Result<(), Mismatch> {
+    let local = x[0];
+    let (z, _) = decode_zone(&x[1..]);
+    let b = build(&z);
+    let tz = match TimeZoneRef::new(&b.trans, &b.types, &b.leaps, &b.rule) {
+        Ok(tz) => tz,
+        Err(_) => return Ok(()),
+    };
+    let f = o::fields(local);
+    let list = match DateTime::find(f.0 as i32, f.1 as u8, f.2 as u8, f.3 as u8, f.4 as u8, f.5 as u8, 7, tz) {
+        Ok(l) => l.into_inner(),
+        Err(_) => return Ok(()),
+    };
+    let inv = |dt: &DateTime| -> Result<(), Mismatch> {
+        let fl = dt_fields(dt);
+        let want = o::secs(fl.0, fl.1, fl.2, fl.3, fl.4, fl.5);
+        let have = dt.unix_time() as i128 + dt.local_time_type().ut_offset() as i128;
+        if want != have || dt.nanoseconds() != 7 {
+            return Err((format!("secs(fields {:?}) = unix_time + offset = {have}, ns=7", fl), format!("secs(fields) = {want}, unix_time={} offset={} ns={}", dt.unix_time(), dt.local_time_type().ut_offset(), dt.nanoseconds())));
+        }
+        Ok(())
+    };
+    for k in &list {
+        match k {
+            FoundDateTimeKind::Normal(dt) => {
+                inv(dt)?;
+                if dt_fields(dt) != f {
+                    return Err((format!("Normal entry carries the searched fields {:?}", f), format!("{:?}", dt_fields(dt))));
+                }
+            }
+            FoundDateTimeKind::Skipped { before_transition, after_transition } => {
+                inv(before_transition)?;
+                inv(after_transition)?;
+                if before_transition.unix_time() != after_transition.unix_time() {
+                    return Err(("both halves of a gap entry denote the transition instant".into(), format!("{} vs {}", before_transition.unix_time(), after_transition.unix_time())));
+                }
+            }
+        }
+    }
+    Ok(())
+}
+
 // ---------------------------------------------------------------------------------------------- rules (C04, C11)
 
 fn enc_day(d: o::Day) -> [i128; 4] {
@@ -864,8 +949,10 @@ fn gen_c11(rng: &mut Rng, n: usize, emit: &mut dyn FnMut(Vec<i128>) -> bool) {
         match round % 40 {
             1 => a.std_off = rng.pick(&[93600i128, -90000]),
             2 => a.dst_off = rng.pick(&[93600i128, -90000]),
-            3 => a.start_time = rng.pick(&[604800i128, -604800]),
-            4 => a.end_time = rng.pick(&[604800i128, -604800]),
+            3 => a.start_time = rng.pick(&[604800i128, -604800, i32::MIN as i128, i32::MAX as i128, i32::MIN as i128 + 1]),
+            4 => a.end_time = rng.pick(&[604800i128, -604800, i32::MIN as i128, i32::MAX as i128, i32::MIN as i128 + 1]),
+            5 => a.std_off = rng.pick(&[i32::MAX as i128, i32::MIN as i128 + 1, -89999, 93599]),
+            6 => a.dst_off = rng.pick(&[i32::MAX as i128, i32::MIN as i128 + 1, -89999, 93599]),
             _ => {}
         }
         if !emit(enc_alt(&a)) {
@@ -1004,6 +1091,7 @@ const PROBES: &[Probe] = &[
     Probe { name: "C13/new", property: "C13", gen: gen_c13, eval: eval_c13 },
     Probe { name: "C14/new", property: "C14", gen: gen_c14_new, eval: eval_c14_new },
     Probe { name: "C14/from_timespec_and_local", property: "C14", gen: gen_c14_ts, eval: eval_c14_ts },
+    Probe { name: "C14/search_entries", property: "C14", gen: gen_c14_search, eval: eval_c14_search },
     Probe { name: "C16/split", property: "C16", gen: gen_c16, eval: eval_c16 },
 ];
 
